@@ -123,6 +123,7 @@ def run(ctx):
     hashes, nontriv = set(), set()
     op_hist, viol_hist, skip_hist = {}, {}, {}
     mine, others = [], {}
+    known_hits = {}
     n_panic = 0
     for ti, ((kind, ops, orc, ans), (a, b)) in enumerate(zip(traces, bounds)):
         d = first_divergence(all_impl[a:b], model[a:b])
@@ -140,6 +141,14 @@ def run(ctx):
             op_hist[k] = op_hist.get(k, 0) + 1
         for k, v in w.skips.items():
             skip_hist[k] = skip_hist.get(k, 0) + v
+        for (i, p, fid, text) in getattr(w, "known", []):
+            if p != prop:
+                continue
+            if any(k.get("id") == fid and k.get("status") == "known" and k.get("property") == prop for k in lib.known_findings()):
+                ctx.known_finding("%s %s" % (fid, next(k["line"] for k in lib.known_findings() if k.get("id") == fid and k.get("property") == prop)))
+                known_hits[fid] = known_hits.get(fid, 0) + 1
+            else:
+                mine.append((ti, i, text))
         for (i, p, text) in w.v:
             viol_hist[p] = viol_hist.get(p, 0) + 1
             if p == prop:
@@ -156,6 +165,7 @@ def run(ctx):
     ctx.cov["skipped_clauses"] = skip_hist
     ctx.cov["monitor_alarms_all_properties"] = viol_hist
     ctx.cov["correspondence_divergences"] = n_div
+    ctx.cov["known_finding_hits"] = known_hits
     ctx.cov["samples"] = [" ; ".join(traces[i][1][:14]) + " ..." for i in range(min(2, len(traces)))]
     ctx.cov["scenario_mix"] = [(k, (nt if ctx.thorough() else nq), size) for (k, nq, nt, size) in mix]
     ctx.log("histories=%d ops=%d divergences=%d alarms=%s" % (len(traces), len(all_ops), n_div, viol_hist))
